@@ -440,6 +440,26 @@ func runC11(r *Run, p *Prog) {
 		r.Ob("N4", shortName(recv), "the reply is decoded into a fresh zero value", cm.Decode.Call.Pos(), ok, why)
 		want := "slice(ext(" + T.T(cm.Read) + ",0),nil,(call:len(ext(" + T.T(cm.Read) + ",0)) - const:1))"
 		r.Ob("N4", shortName(recv), "decoded bytes are exactly the frame without its NUL", cm.Decode.Call.Pos(), T.T(cm.Decode.Data) == want, "decoded bytes are "+strip(T.T(cm.Decode.Data)))
+		// every frame that was read completely is handed to the decoder: on the read-success edge no return is reachable
+		// that does not pass the decode (a pre-check of the frame's first byte refuses `null`, which must count as an
+		// empty reply, and decides on something other than the decoder's verdict)
+		{
+			readErr := "ext(" + T.T(cm.Read) + ",1)"
+			for _, b := range recv.Blocks {
+				for _, s := range b.Succs {
+					if !hasFact(T.edgeFactsOn(b, s), "EQ", readErr, "nil") {
+						continue
+					}
+					skip, w := reachFromBlock(recv, s, isReturn, nil)
+					_ = skip
+					// search again, now stopping at the decode
+					reach, w2 := reachFromBlockAvoid(recv, s, isReturn, func(in ssa.Instruction) bool { return in == ssa.Instruction(cm.Decode.Call) }, nil)
+					_ = w
+					r.Ob("N4", shortName(recv), "a completely received frame always reaches the decoder", p.InstrPos(b.Instrs[len(b.Instrs)-1]), !reach,
+						"after a successful frame read a return is reachable without decoding the frame: some frames are judged by something other than the JSON decoder (the bare literal null, for one, must be an empty reply)", witnessPos(p, w2)...)
+				}
+			}
+		}
 		decErr := T.T(cm.Decode.Call)
 		// decode error returned at once
 		for _, b := range recv.Blocks {
